@@ -6,6 +6,7 @@ regimes loaded) with the extracted Gallina model TaxId/Regimes.v on the same raw
 (this file, SPEC_*), Go's normalised code against the documented normalisation (upper-case, strip
 non-alphanumerics, trim one country / alternative prefix, regime steps), idempotence and
 preservation of the digits.  Either difference is reported with the concrete code."""
+import os
 import re
 from vlib import *
 
@@ -287,6 +288,8 @@ def spec_accepts(cc, code):
 
 
 def trim(cc, s):
+    if cc in ("GR", "EL"):      # documented (regimes/gr tests): the EL and GR prefixes are both removed
+        cc = "EL"
     for p in [cc] + ALTS.get(cc, []):
         if p and s.startswith(p):
             s = s[len(p):]
@@ -504,6 +507,40 @@ def line(op, cc, raw):
     return "c13 %s %s %s" % (op, w(cc), w(raw))
 
 
+WITNESSES = [   # recorded findings, refutation witnesses and the characterised undetected errors of the theorems
+    ("NL", "000000050B01"), ("NL", "000000050B02"), ("GB", "930000200"), ("GB", "930000297"), ("GB", "000000000001"),
+    ("BR", "05.104.582/0001-70"), ("BR", "05104582000170"), ("BR", "br05104582000170"),
+    ("ES", "ESESB85905495"), ("ES", "ESB85905495"), ("FR", "FRFR44732829320"), ("FR", "732 829 320"),
+    ("PT", "100000010"), ("PT", "600000010"), ("BR", "00000047514000"), ("BR", "20000047514000"),
+    ("GB", "360837741"), ("GB", "367837741"), ("GB", "812865718"), ("GB", "872865718"),
+    ("CH", "CHE-018.955.594 MWST"), ("CH", "E018955594MWSTMWST"), ("EL", "gr 321223300"), ("GR", "el 321223300"),
+    ("GB", "XIGB957117743"), ("IN", "inin28AYQJU1485FNZH"), ("MX", "kgp-990751 7oc"), ("MX", "ñ&a010301i16"),
+]
+
+
+def corpus():
+    """test vectors of the repository's own regime tests plus the recorded witnesses"""
+    cases = []
+    rdir = os.path.join(REPO, "regimes")
+    for d in sorted(os.listdir(rdir)) if os.path.isdir(rdir) else []:
+        cc = {"gr": "EL"}.get(d, d.upper())
+        if cc not in SPEC:
+            continue
+        for f in sorted(os.listdir(os.path.join(rdir, d))):
+            if not f.endswith("_test.go") or not ("tax_identity" in f or "tax_code" in f):
+                continue
+            txt = open(os.path.join(rdir, d, f), encoding="utf-8", errors="replace").read()
+            for m in re.finditer(r'\b[Cc]ode:\s*"((?:[^"\\\n]|\\.)*)"', txt):
+                code = m.group(1)
+                if "\\" in code or len(code) > 80:
+                    continue
+                cases.append(("corpus(repo tests)", cc, code, None))
+    for cc, code in WITNESSES:
+        doubled = unstable(*pnorm(cc, code))
+        cases.append(("corpus(witnesses, doubled prefix; informational)" if doubled else "corpus(witnesses)", cc, code, None))
+    return cases
+
+
 def gen(c, quick):
     """yields one batch of cases per regime (bounded memory in the thorough tier)"""
     rng = c.rng
@@ -538,7 +575,10 @@ def gen(c, quick):
                 use = "GR"
             if cc == "GB" and rng.random() < 0.3:
                 use = rng.choice(["XI", "XU"])
-            cases.append((cc + "/formatted", use, formatted(rng, use, base), base))
+            raw = formatted(rng, use, base)
+            if use == "GR" and rng.random() < 0.1:
+                raw = rng.choice(["EL", "el ", "EL-"]) + base
+            cases.append((cc + "/formatted", use, raw, base))
         # wrong lengths, empty, foreign characters of the alphabet
         for _ in range(200 if quick else 4000):
             b = rng.choice(valids)
@@ -656,6 +696,11 @@ def run(c):
                 if gok != spec_accepts(cc1, c1):
                     fail("verdict", cc, raw, "tax identity BR %r left as written is %s" % (raw, "accepted" if gok else "rejected"), {"implementation": g})
                 continue
+            if cc == "GR" and c1.startswith("EL") and c1[2:] == ecode and c2 == ecode:
+                # known finding: with country GR the EL prefix survives the first normalisation
+                fail("normalisation", cc, raw, "tax identity GR %r keeps its EL prefix: %r (documented normalisation gives %r)" % (raw, c1, ecode),
+                     {"implementation": g, "expected_code": ecode, "finding": "C13-gr-country-keeps-el-prefix"})
+                continue
             if (cc1, c1) != (ecc, ecode):
                 fail("normalisation", cc, raw, "tax identity %s %r normalises to %s %r, documented normalisation gives %s %r" % (cc, raw, cc1, c1, ecc, ecode),
                      {"implementation": g, "expected_code": ecode})
@@ -696,8 +741,9 @@ def run(c):
         vm_sample.extend(lines[:: max(1, len(lines) // (200 if quick else 12))][:200 if quick else 12])
 
     if quick:       # one run of the two executables over everything (fewer process start-ups)
-        judge([x for batch in gen(c, quick) for x in batch])
+        judge(corpus() + [x for batch in gen(c, quick) for x in batch])
     else:           # one regime at a time (bounded memory)
+        judge(corpus())
         for batch in gen(c, quick):
             judge(batch)
     c.cov["non_idempotent_doubled_prefix_cases(informational)"] = state["nonidem"]
@@ -713,7 +759,8 @@ def run(c):
             fail("party", cc, raw, "tax identity %s %r inside a party gives `%s`, alone `%s`" % (cc, raw, g, alone),
                  {"implementation": g, "case": line("party", cc, raw)})
 
-    c.cov["rule"] = ("per regime (AE AT BE BR CH CO DE EL ES FR GB IN IT MX NL PL PT): codes constructed valid by the independent "
+    c.cov["rule"] = ("corpus first (codes of the repository's regime tests, recorded witnesses), then "
+                     "per regime (AE AT BE BR CH CO DE EL ES FR GB IN IT MX NL PL PT): codes constructed valid by the independent "
                      "specification, every single-character substitution of them inside the national alphabet, random strings of the "
                      "national alphabet and length, written variants (separators, lower case, one leading country prefix, alternative "
                      "country codes GR/XI/XU), wrong lengths; doubled prefixes are informational; distinct = distinct (stream, raw code); "
